@@ -6,7 +6,7 @@ M = "xhair.obl.c13"
 def x_obligations(tier):
     o = []
     T = 170 if tier == "quick" else 600
-    triples = [(0, 1, 4), (4, 4, 0), (1, 2, 3)] if tier == "quick" else [(a, b, c) for a in range(5) for b in range(5) for c in range(5) if (a + 2 * b + 3 * c) % 7 == 0]
+    triples = [(0, 1, 4), (4, 4, 0), (1, 2, 3), (5, 6, 5), (6, 5, 1)] if tier == "quick" else [(a, b, c) for a in range(7) for b in range(7) for c in range(7) if (a + 2 * b + 3 * c) % 7 == 0]
     for w in ("lru_kw_cache", "lru_cache", "hit_cache"):
         for ms in (1, 2):
             for (m1, m2, m3) in triples:
@@ -24,14 +24,19 @@ def x_obligations(tier):
             o.append(Obl(f"C13-entry-unfold[search#{i},kw={k1}{k2}]", M, "entry_unfold", env={"VF_IDX": str(i), "VF_KW1": str(k1), "VF_KW2": str(k2)}, timeout=T, family="C13-entry",
                          bound="unfold_search(s, do_uniquify, do_extrapolate) twice, all 16 flag combinations"))
     o.append(Obl("C13-entry-shared", M, "entry_sid_shared", timeout=T, family="C13-entry", bound="7 x 7 Sid strings, mutation of returned dictionaries between calls"))
-    NCALLS = 29
+    NCALLS = 32
     for i in range(NCALLS):
         for first in (("local", "server") if tier == "thorough" or i in (9, 11, 13, 16) else ("local",)):
             o.append(Obl(f"C13-pair[first={i},loaded-first={first}]", M, "pair", env={"VF_IDX": str(i), "VF_FIRST": first}, timeout=T, family="C13-pair",
-                         bound=f"history (call #{i}, call j) for every j of a 29-call alphabet covering all cached entry points, flags and configurations; path configuration '{first}' loaded first"))
+                         bound=f"history (call #{i}, call j) for every j of a 32-call alphabet covering all cached entry points, flags and configurations; path configuration '{first}' loaded first"))
     if tier == "thorough":
         for i in range(NCALLS):
-            o.append(Obl(f"C13-triple[first={i}]", M, "triple", env={"VF_IDX": str(i)}, timeout=T, family="C13-pair", bound="histories of 3 calls over the 29-call alphabet"))
+            o.append(Obl(f"C13-triple[first={i}]", M, "triple", env={"VF_IDX": str(i)}, timeout=T, family="C13-pair", bound="histories of 3 calls over the 32-call alphabet"))
+    for sid, epre, esuf, fixed in [("h/a/x", "h/a/", "", "h/a/x"), ("h/s/q1/v1/c", "h/s/q1/v1/", "", "h/s/q1/v1/c")]:
+        o.append(Obl(f"C13-data-change[{sid},{epre!r}+a]", "xhair.obl.c12", "sid_laws_after_change", env={"VF_SID": sid, "VF_EPRE": epre, "VF_ESUF": esuf, "VF_FIXED": fixed, "VF_N": "1", "VF_CACHES": "1"},
+                     timeout=60 if tier == "quick" else T, expect="find", family="C13-entry", bound="exists / siblings / children before an entity is created, after, and after it is removed again -- caches ON (keys are realised: bug-hunt)"))
+    o.append(Obl("C13-finder-reuse[caches on]", "xhair.obl.c12", "order_repeat", env={"VF_CACHES": "1"}, timeout=T, family="C13-entry",
+                 bound="one FindInAll instance asked 6 searches 1..3 times (find, find as Sid, find_one, exists -- partially consumed generators in between): every answer as the first time"))
     o.append(Obl("C13-reach", M, "reach", timeout=60, expect="refute", family="C13-twin"))
     return o
 
